@@ -127,6 +127,13 @@ def run(ctx):
                 op[4] = 0
                 if op[7]:
                     op[8:10] = me
+    # directed: somebody else creates a channel file first (12th field of a client line = 1), alone and next to an
+    # undisturbed client, default and chosen owner/mode.  Needs root (the planted file belongs to a third user).
+    if os.geteuid() == 0:
+        for srv in ([1, 1, 0, 0], [1, 1, 0, 1]):
+            hs.append([srv, [2, 1, 1000, 1000, 0, 0, 0, 0, 0, 0, 0, 1]])
+            hs.append([srv, [2, 1, 1000, 1000, 0, 0, 0, 1, 1000, 1000, 432, 1], [2, 2, 1, 1, 0, 0, 0, 0, 0, 0, 0, 0]])
+            hs.append([srv, [2, 1, 65534, 1, 1, 0, 0, 1, 0, 1, 416, 0], [2, 2, 1000, 1000, 0, 0, 0, 0, 0, 0, 0, 1]])
     for h in (hs[:1] + hs[n1:n1 + 2]):
         ctx.sample({"scenario": to_lines(h)})
     ctx.exec_validate(exe, hs, to_lines, "IpcAdmitTrace.tla", "IpcAdmitTrace.cfg", nshards=4, timeout=1500)
@@ -142,7 +149,7 @@ def run(ctx):
                     key = "Result_connected" if line.rstrip().endswith('"r":[1,0]}') else "Result_failed"
                 cnt[key] = cnt.get(key, 0) + 1
     ctx.cov["recorded_events"] = cnt
-    for need_ev in ("Accept", "Handled", "Obs", "Msg", "Result_connected", "Result_failed"):
+    for need_ev in ("Accept", "Handled", "Obs", "Msg", "Result_connected", "Result_failed") + (("Plant",) if os.geteuid() == 0 else ()):
         if not cnt.get(need_ev) and not ctx.violations:
             raise core.Infra("vacuous run: no %s event was recorded" % need_ev)
     ctx.cov["scenarios_single_client_enumerated"] = n1
